@@ -138,7 +138,7 @@ const ARRAY_CHOICES: &[usize] = &[2, 1, 3, 2, 3, 4, 5, 6, 7, 8, 12, 16, 0, 4];
 const VEC_LENS: &[usize] = &[2, 1, 3, 2, 3, 4, 5, 6, 7, 8, 9, 10, 11, 12, 0, 4];
 const BIG_LENS: &[usize] = &[22, 23, 24, 63, 64, 65, 66, 100, 128, 129, 200];
 
-fn gen_script(c: &mut Cur, p: &Profile, flavor: Flavor, nleaves_hint: usize) -> LeafSpec {
+pub fn gen_script(c: &mut Cur, p: &Profile, flavor: Flavor, nleaves_hint: usize) -> LeafSpec {
     let len = c.choice(p.max_script + 1);
     let mut script = Vec::with_capacity(len + 1);
     for _ in 0..len {
